@@ -30,7 +30,7 @@ CLAIMS["C09"] = dict(
     technique="machine-checked proof in Coq (invariant + exact iteration) + bit-exact correspondence")
 CLAIMS["C16"] = dict(
     text="Coq theorems (Properties/C16.v) over the declarations GENERATED from the sources (every public struct/enum with its fields, every unsafe impl Send/Sync with its bounds): for every public type and EVERY assignment of Send/Sync to its parameters (finite enumeration inside Coq = all instantiations), being Send/Sync implies the required Send/Sync of every parameter the type gives shared / exclusive / owning access to (AccessTable), and every parameter with exclusive access is invariant. Tie: the calculus' predictions are compared with rustc on ~1800 (quick) / ~14000 (thorough) generated probe programs; borrow and variance probes must be rejected by rustc.",
-    note=COMMON_NOTE + " Partial: Model/Marker.v is a model (not a verified implementation) of rustc's auto-trait and variance rules; the borrow-lifetime clause of the property is decided by rustc on probe programs only; Spec/AccessTable.v is a hand-written specification.",
+    note=COMMON_NOTE + " Partial: Model/Marker.v is a model (not a verified implementation) of rustc's auto-trait and variance rules; the borrow clause is proved at the level of the generated method DECLARATIONS (C16b: receiver kinds and lifetime binding); that rustc's borrow checker then enforces them for every caller is rustc's contract, sampled by probe programs; Spec/AccessTable.v is a hand-written specification; tools/sigx.py (declarations and method signatures) is in the trusted base.",
     technique="machine-checked proof in Coq by finite enumeration over source-generated declarations + rustc probe validation")
 CLAIMS["C19"] = dict(
     text="Coq theorems (Properties/C19.v): for every SafeWF table and EVERY list of split-or-consume decisions (every binary split tree of any depth) the leaves of the model of RawIterRange::split concatenate, left to right, to exactly the sequential iteration -- pairwise disjoint, every stored element once, no out-of-bounds or unaligned group load; and for every choice of per-leaf stop positions of a short-circuiting consumer each element is delivered exactly once or dropped exactly once. Tie: the real split is driven along caller-chosen trees through a hook and every leaf compared with the extracted model; par_iter / par_iter_mut / into_par_iter / par_drain (early-stopping consumers) / par_extend run on pools of 1..64 threads and are judged as multisets with drop accounting.",
@@ -109,6 +109,7 @@ CLAIMS["C04"]["text"] += (" Properties/C04q.v (Model/PanicOps2.v): the iterator 
     "a panicking Into conversion (K::from(&q)) in the entry_ref API unwinds exactly when the key is absent and leaves the table IDENTICAL to the pre-state, and is never run on a present key. A panicking closure handed to replace_entry_with / and_replace_entry_with (HashMap entries and raw_entry_mut, through RawTable::replace_bucket_with) leaves a well-formed map without that key, the removed element released exactly once, and never runs on an absent key; a panicking and_modify closure leaves the table identical. Level C runs these models against the implementation (harness operation `extendp`, arms `intopanic` / `predpanic_nth` on the entry operations), level A demands exactly those contents.")
 CLAIMS["C04"]["note"] = COMMON_NOTE + " PARTIAL: the theorems cover panics of the hasher, of destructors, of Clone, of Eq (at the level of the two search functions every operation uses), of the retain / extract_if closures, of the extend iterator, of the Into conversion of entry_ref and of the closures handed to replace_entry_with / and_replace_entry_with / and_modify; panics of or_insert_with-style default closures (which run before anything is touched) and of Drop inside the owning iterators' consumers are decided by the fault-injection correspondence, the registry and wf_check on generated histories."
 CLAIMS["C07"]["text"] += (" Properties/C07a.v (Proofs/SetOpsFacts.v): the ASSIGNING operators |=, &=, ^=, -= as the loops of set.rs over the TABLE model (every iteration a HashSet operation with real probing, tombstones, growth): from any well-formed left table and any right-hand element list the result is a well-formed table representing exactly the mathematical union / intersection / symmetric difference / difference, element objects included (set2_spec: which stored object survives, which right-hand object is cloned in); collect() of a duplicate-free pipeline output (what |, &, ^, - do) yields a well-formed table holding exactly those elements.")
+CLAIMS["C16"]["text"] += (" Properties/C16b.v (Model/Borrow.v, Proofs/BorrowFacts.v): the BORROW clause over the public method signatures, which tools/sigx.py now also regenerates from the source on every check (229 inherent `pub fn`s of the exported types: receiver kind, lifetimes of impl / fn / inputs / return type, what the return type contains): whatever can write or move out through a borrow (`&mut`, or a handle type with a lifetime to which the access table gives Exclusive / Owning / unique read-only access) is only obtainable from `&mut self` or by consuming another handle; every borrowing result has a receiver or borrowed argument to borrow from; every named lifetime of a return type is bound by the impl block or an input. A one-token slip (`&mut self` -> `&self`, an unconstrained `<'x>`) makes the theorem fail and the check reports the offending declaration as the replay.")
 CLAIMS["C20"]["text"] += (" Properties/C20a.v (Proofs/SerdeTableFacts.v): the visitors on the TABLE model: with_capacity(cautious(hint)) followed by real inserts yields, for every hint, input and hash function, a well-formed table representing `build items`; an input error after ANY number of elements leaves a valid partial map whose drop releases each element built so far exactly once and its block exactly once with the requested layout (the error path of the property).")
 CLAIMS["C08"]["text"] += (" Properties/C08.v also states the last clause of the property: after shrink_to(m) the table has at most the bucket count (and at most the allocation size) of a fresh with_capacity(max(len, m)) (Proofs/ShrinkBound.v).")
 CLAIMS["C14"]["text"] += (" Properties/C14e.v (Model/Entry2.v): RawTable::insert_no_grow, HashMap::rustc_entry with its actions, raw_entry_mut().from_key / from_key_hashed_nocheck with their actions and raw_entry().from_key are transcribed as their own model code and PROVED equal, as values (table, output, event list), to the HashMap::entry composition -- rustc_entry(k) = the entry operation when k is present, reserve(1) followed by the entry operation when it is absent (also at growth_left = 0), insert_no_grow = RawTable::insert whenever its precondition holds -- hence they refine the reference map; level C runs this code-shaped model against the implementation.")
